@@ -27,7 +27,7 @@ const FS_FAULTS: &[&str] = &[
 ];
 const ODD_NAMES: &[&str] = &["Proyecto [rev2]", "casa (copia) 1", "obra?", "edif*", "Año 2024 ñ", "a b\tc"];
 const RUST_LOGS: &[Option<&str>] = &[None, None, Some("error"), Some("warn"), Some("info"), Some("debug"), Some("trace")];
-const PATH_FORMS: &[&str] = &["abs", "abs", "rel", "dot_rel", "trailing_slash", "symlink"];
+const PATH_FORMS: &[&str] = &["abs", "abs", "rel", "dot_rel", "trailing_slash", "symlink", "dot", "file_arg"];
 
 fn env_case(rng: &mut Rng, projects: &[String], faults: bool) -> Value {
     let project = rng.pick(projects).clone();
